@@ -10,6 +10,7 @@ import (
 
 	"github.com/gofiber/fiber/v3"
 	"github.com/gofiber/fiber/v3/middleware/limiter"
+	"github.com/valyala/fasthttp"
 	"pgregory.net/rapid"
 
 	"verifharness/vk"
@@ -40,6 +41,7 @@ type Case struct {
 	SkipOK, SkipFail bool
 	T0               int
 	Ops              []Op
+	Conn             bool `json:",omitempty"` // all requests are served by one recycled RequestCtx (one keep-alive connection)
 	Default          bool `json:",omitempty"` // limiter.New() without a Config: 5 requests per minute and client IP
 	SubSec           bool `json:",omitempty"` // Expiration is 500ms (below the limiter's one-second resolution); the history then has no clock advances
 }
@@ -115,6 +117,11 @@ func check(c Case) vk.Verdict {
 	}
 	admitted := 0
 	app := newLimiter(c, st, func(fiber.Ctx) { admitted++ })
+	do := func(uri string) *fasthttp.RequestCtx { return vk.Do(app, "GET", uri) }
+	if c.Conn {
+		conn := &vk.Reuse{}
+		do = func(uri string) *fasthttp.RequestCtx { return conn.Do(app, "GET", uri) }
+	}
 	model := map[string]*win{}
 	v := vk.Verdict{Classes: []string{"algo:" + c.Algo, "store:" + c.Store}}
 	crossed, rejected, dynamic := false, false, false
@@ -153,7 +160,7 @@ func check(c Case) vk.Verdict {
 		if limit == 0 {
 			// MaxFunc == 0 disables the limiter for this request: no window is started or touched
 			before := admitted
-			vk.Do(app, "GET", fmt.Sprintf("/?k=%s&st=%d&lim=0", op.Key, op.Status))
+			do(fmt.Sprintf("/?k=%s&st=%d&lim=0", op.Key, op.Status))
 			if admitted == before {
 				return vk.Failf("op %d: MaxFunc returned 0 (limiter disabled for this request) but the handler did not run", i)
 			}
@@ -187,7 +194,7 @@ func check(c Case) vk.Verdict {
 			w.adm, w.all = 0, 0
 		}
 		before := admitted
-		r := vk.Do(app, "GET", fmt.Sprintf("/?k=%s&st=%d&lim=%d&slow=%d", op.Key, op.Status, limit, op.Slow))
+		r := do(fmt.Sprintf("/?k=%s&st=%d&lim=%d&slow=%d", op.Key, op.Status, limit, op.Slow))
 		ran := admitted > before
 		retryNow := now // (a slow handler moved the clock meanwhile; everything below is judged at the time of arrival, and a
 		// give-back belongs to the window the hit was counted in - the model rolls its window lazily at the next request)
@@ -269,6 +276,7 @@ func genCase(t *rapid.T) Case {
 	}
 	c.SubSec = rapid.IntRange(0, 9).Draw(t, "subsec") == 0
 	c.Default = rapid.IntRange(0, 19).Draw(t, "default") == 0
+	c.Conn = rapid.IntRange(0, 2).Draw(t, "conn") == 0
 	mode := rapid.SampledFrom([]string{"const", "const", "constdiff", "dynamic"}).Draw(t, "maxmode")
 	constLimit := c.Max
 	if mode == "constdiff" {
